@@ -48,10 +48,13 @@ def exercise(ctx):
                     continue
                 for cls in (plain, aplain):
                     for m in listed:
-                        if not callable(getattr(cls, client_method_name(m["name"]), None)):
+                        # an RPC that starts an extended operation is offered by the asyncio client as <rpc>_unary only
+                        n = client_method_name(m["name"]) + ("_unary" if m.get("op_service") and cls is aplain else "")
+                        if not callable(getattr(cls, n, None)):
                             ctx.violation("listed-rpc-missing", f"{cls.__name__} lacks listed RPC {m['name']}")
                     for m in unlisted:
-                        if hasattr(cls, client_method_name(m["name"])) or hasattr(cls, "_" + client_method_name(m["name"])):
+                        n = client_method_name(m["name"])
+                        if any(hasattr(cls, x) for x in (n, "_" + n, n + "_unary", "_" + n + "_unary")):
                             ctx.violation("unlisted-rpc-present", f"{cls.__name__} still has unlisted RPC {m['name']}")
                 s2 = dict(s, methods=listed)
                 new_svcs.append(s2)
@@ -68,15 +71,22 @@ def exercise(ctx):
                 if want_base and plain is not None:
                     ctx.violation("internal-client-name", f"service {s['name']} has unlisted RPCs but still exports {s['name']}Client")
                 for c in (cls, acls):
+                    def entry(m, c=c):
+                        # an RPC that starts an extended operation is offered by the asyncio client as <rpc>_unary only
+                        n = client_method_name(m["name"])
+                        return n + "_unary" if m.get("op_service") and c is acls else n
                     for m in listed:
-                        if not callable(getattr(c, client_method_name(m["name"]), None)):
+                        if not callable(getattr(c, entry(m), None)):
                             ctx.violation("listed-rpc-missing", f"{c.__name__} lacks listed RPC {m['name']}")
                     for m in unlisted:
-                        n = client_method_name(m["name"])
+                        n = entry(m)
                         if not callable(getattr(c, "_" + n, None)):
                             ctx.violation("internal-rpc-missing", f"{c.__name__} lacks internal method _{n} for unlisted RPC {m['name']}")
                         if hasattr(c, n):
                             ctx.violation("internal-rpc-public", f"{c.__name__} exposes unlisted RPC {m['name']} under its public name")
+                        # every entry point of the RPC is internal (extended-operation RPCs have a second one, <rpc>_unary)
+                        if hasattr(c, client_method_name(m["name"]) + "_unary"):
+                            ctx.violation("internal-rpc-public", f"{c.__name__} exposes unlisted RPC {m['name']} as {client_method_name(m['name'])}_unary")
             ctx.count("services_checked")
         f["services"] = new_svcs
     # kept RPCs behave as specified (C03's observation on the selective library)
@@ -85,6 +95,11 @@ def exercise(ctx):
         sub = copy.copy(ctx)
         sub.api = kept_api
         sub.services = lambda: ((f, s) for f in kept_api["files"] if not targets or f["name"] in targets for s in f.get("services", []))
+        # RPCs that start an extended operation build a client of the operation service with the caller's credentials
+        # (none on a loopback channel): their call behaviour is not exercised here
+        for f_ in kept_api["files"]:
+            for s_ in f_.get("services", []):
+                s_["methods"] = [m_ for m_ in s_["methods"] if not m_.get("op_service")]
         saved = ctx.violations
         c03.exercise.__globals__["import_all_done"] = True
         c03.exercise(sub)
